@@ -8,11 +8,11 @@ EXTENDS FairQueue, Json
 CONSTANT Depth
 VARIABLES hist, wakes
 gvars == <<vars, hist, wakes>>
-Snap == [ready |-> {<<e[1], e[2]>> : e \in heap'}, nready |-> Cardinality(heap'), streams |-> streams', waker |-> (wslot' # 0),
+Snap == [ready |-> {<<e[1], e[2]>> : e \in heap'}, nready |-> Cardinality(heap'), streams |-> streams', waker |-> wslot',
          counter |-> counter', wakes |-> wakes', delivered |-> delivered']
 Inj == pc \in {"idle", "parked", "poll", "l2", "l3"}
 Log(r) == hist' = Append(hist, r)
-Wk == wakes' = wakes + (IF wslot # 0 THEN 1 ELSE 0)
+Wk == wakes' = wakes + (IF wslot THEN 1 ELSE 0)
 GInit == Init /\ hist = <<>> /\ wakes = 0
 GNext ==
   \/ \E k \in Keys : Inj /\ Insert(k) /\ Wk /\ Log([a |-> "Insert", k |-> k])
